@@ -65,9 +65,12 @@ func writeManifest() int {
 		"checks":  checks,
 		"notes":   "Runtime monitoring: every check builds its engine against /repo's working tree (tag verif + overlay shim), runs generated/hostile/fault-injected workloads of the real code in child processes and decides with oracles over recorded events. Known findings: /verif/known_findings.txt. See DESIGN.md.",
 	}
-	if len(na) > 0 {
-		m["not_applicable"] = na
+	// always present: every one of the 20 properties is claimed, so the list is empty (parts of statements
+	// that this family cannot decide - unbounded "eventually" - are restated as bounded progress, DESIGN.md §7)
+	if na == nil {
+		na = []map[string]any{}
 	}
+	m["not_applicable"] = na
 	b, _ := json.MarshalIndent(m, "", " ")
 	if err := os.WriteFile(filepath.Join(verifDir, "MANIFEST.json"), append(b, '\n'), 0o644); err != nil {
 		fmt.Println(err)
